@@ -70,6 +70,10 @@ func (r *regRun) writers(i string, l []interface{}) []string {
 	}
 	out := []string{}
 	for _, x := range l {
+		if asStr(x) == "*" {
+			out = append(out, "*")
+			continue
+		}
 		out = append(out, r.nodes[asStr(x)].DB.Identity().ID)
 	}
 	sort.Strings(out)
@@ -100,6 +104,10 @@ func (r *regRun) checkStore(s iface.Store, a map[string]interface{}, what string
 	}
 	want := []string{}
 	for _, x := range asList(a["write"]) {
+		if asStr(x) == "*" {
+			want = append(want, "*")
+			continue
+		}
 		want = append(want, r.nodes[asStr(x)].DB.Identity().ID)
 	}
 	sort.Strings(want)
